@@ -72,6 +72,16 @@ type vfAct struct {
 	Res string `json:"res"`
 	B   int    `json:"b"`
 	RR  int    `json:"rr"`
+	// two concurrent callers (K >= 0): the second caller's call and its outcome
+	K    int    `json:"k"`
+	Op2  string `json:"op2"`
+	C2   int    `json:"c2"`
+	G2   int    `json:"g2"`
+	D2   int    `json:"d2"`
+	R2   int    `json:"r2"`
+	Res2 string `json:"res2"`
+	B2   int    `json:"b2"`
+	RR2  int    `json:"rr2"`
 }
 
 type vfObs struct {
@@ -96,6 +106,8 @@ type vfConc struct {
 	Spelling string   `json:"spelling,omitempty"`
 	Duration string   `json:"duration,omitempty"`
 	Reason   *int     `json:"reason,omitempty"`
+	Second   string   `json:"second,omitempty"` // concrete inputs of the second caller's call
+	TxOfA    int      `json:"first_call_tx_before_second,omitempty"`
 	Sweep    []string `json:"sweep,omitempty"`
 }
 
@@ -127,8 +139,10 @@ type vfClass struct {
 }
 
 // A spelling is "P|text|ones/bits" (banman.ParseIPNet(text, CIDRMask) with an
-// empty mask field meaning nil) or "C|cidr|" (net.ParseCIDR, the *net.IPNet is
-// handed to the store as is).
+// empty mask field meaning nil), "C|cidr|" (net.ParseCIDR, the *net.IPNet is
+// handed to the store as is) or "N|text|ones/bits" (the literal
+// &net.IPNet{IP: net.ParseIP(text).Mask(m), Mask: m}; net.ParseIP yields the
+// 16-byte form also for IPv4 text).
 func vfIPNetOf(sp string) (*net.IPNet, error) {
 	f := strings.Split(sp, "|")
 	if len(f) != 3 {
@@ -147,6 +161,24 @@ func vfIPNetOf(sp string) (*net.IPNet, error) {
 	case "C":
 		_, n, err := net.ParseCIDR(f[1])
 		return n, err
+	case "N":
+		ob := strings.Split(f[2], "/")
+		o, _ := strconv.Atoi(ob[0])
+		b, _ := strconv.Atoi(ob[1])
+		m := net.CIDRMask(o, b)
+		ip := net.ParseIP(f[1])
+		if ip == nil || m == nil {
+			return nil, fmt.Errorf("bad spelling %q", sp)
+		}
+		if b == 128 {
+			return &net.IPNet{IP: ip.To16().Mask(m), Mask: m}, nil
+		}
+		// 16-byte IP representation with a 4-byte mask
+		masked := ip.Mask(m)
+		if masked == nil {
+			return nil, fmt.Errorf("bad spelling %q", sp)
+		}
+		return &net.IPNet{IP: masked.To16(), Mask: m}, nil
 	}
 	return nil, fmt.Errorf("bad spelling %q", sp)
 }
@@ -203,7 +235,7 @@ func (c *vfClass) spelling(g int, rng *rand.Rand) string {
 		case 1:
 			return vfPick(rng, []string{
 				"P|" + dq + "|", "P|" + dq + ":" + vfPort(rng) + "|", "P|" + dq + "|32/32",
-				"P|" + dq + ":" + vfPort(rng) + "|32/32", "C|" + dq + "/32|",
+				"P|" + dq + ":" + vfPort(rng) + "|32/32", "C|" + dq + "/32|", "N|" + dq + "|32/32",
 			})
 		case 2:
 			x := vfPick(rng, m)
@@ -216,6 +248,7 @@ func (c *vfClass) spelling(g int, rng *rand.Rand) string {
 				"C|" + m[0] + "/128|", "C|" + m[2] + "/128|", "C|" + m[5] + "/128|",
 				"P|" + dq + "|128/128", "P|" + x + "|128/128",
 				"P|[" + x + "]:" + vfPort(rng) + "|128/128", "P|" + dq + ":" + vfPort(rng) + "|128/128",
+				"N|" + dq + "|128/128", "N|" + x + "|128/128",
 			})
 		}
 	case "a6":
@@ -234,14 +267,26 @@ func (c *vfClass) spelling(g int, rng *rand.Rand) string {
 		}
 	case "n4":
 		dq := vfDQ(c.ip)
+		m := vfMappedTexts(c.ip)
 		mk := fmt.Sprintf("%d/32", c.ones)
+		wide := fmt.Sprintf("%d/128", 96+c.ones) // the same network, mask in IPv4-mapped (16-byte) form
 		cidr := fmt.Sprintf("C|%s/%d|", dq, c.ones)
 		switch g {
+		case 1:
+			return vfPick(rng, []string{"P|" + dq + "|" + mk, "P|" + dq + ":" + vfPort(rng) + "|" + mk, cidr,
+				"N|" + dq + "|" + mk})
 		case 2:
-			x := vfPick(rng, vfMappedTexts(c.ip))
-			return vfPick(rng, []string{"P|" + x + "|" + mk, "P|[" + x + "]:" + vfPort(rng) + "|" + mk})
+			x := vfPick(rng, m)
+			return vfPick(rng, []string{"P|" + x + "|" + mk, "P|[" + x + "]:" + vfPort(rng) + "|" + mk,
+				"N|" + x + "|" + mk})
 		default:
-			return vfPick(rng, []string{"P|" + dq + "|" + mk, "P|" + dq + ":" + vfPort(rng) + "|" + mk, cidr})
+			x := vfPick(rng, m)
+			return vfPick(rng, []string{
+				fmt.Sprintf("C|%s/%d|", m[0], 96+c.ones), fmt.Sprintf("C|%s/%d|", m[2], 96+c.ones),
+				fmt.Sprintf("C|%s/%d|", m[5], 96+c.ones),
+				"P|" + dq + "|" + wide, "P|" + x + "|" + wide, "P|[" + x + "]:" + vfPort(rng) + "|" + wide,
+				"N|" + dq + "|" + wide, "N|" + x + "|" + wide,
+			})
 		}
 	case "n6":
 		comp, others := vfV6Texts(c.ip)
@@ -263,8 +308,8 @@ func (c *vfClass) spelling(g int, rng *rand.Rand) string {
 	panic("unknown class kind " + c.kind)
 }
 
-// keys returns the canonical serialisation (key form 1) and, for single IPv4
-// addresses, the serialisation with a 16-byte mask (key form 2).
+// keys returns the canonical serialisation (key form 1) and, for IPv4
+// addresses and networks, the serialisation with a 16-byte mask (key form 2).
 func (c *vfClass) keys() (k1, k2 []byte) {
 	switch c.kind {
 	case "a4", "n4":
@@ -274,10 +319,8 @@ func (c *vfClass) keys() (k1, k2 []byte) {
 			ones = c.ones
 		}
 		k1 = append(k1, net.CIDRMask(ones, 32)...)
-		if c.kind == "a4" {
-			k2 = append([]byte{ipv4}, c.ip.To4()...)
-			k2 = append(k2, net.CIDRMask(128, 128)...)
-		}
+		k2 = append([]byte{ipv4}, c.ip.To4()...)
+		k2 = append(k2, net.CIDRMask(96+ones, 128)...)
 	default:
 		k1 = append([]byte{ipv6}, c.ip.To16()...)
 		ones := 128
@@ -333,6 +376,88 @@ func vfMakeClasses(rng *rand.Rand, nc int) []*vfClass {
 
 // ---------------------------------------------------------------------------
 
+// ---------------------------------------------------------------------------
+// Two callers.  The store under test sits on vfGateDB, a walletdb.DB proxy
+// through which every database transaction of the store passes.  During a
+// two-caller step the proxy is the scheduler: when the first caller's call is
+// about to begin its (k+1)-th transaction (its k-th has committed), it is held
+// there, the second caller's call runs to completion in a goroutine of its
+// own, then the first call resumes.  If the first call returns having made
+// fewer transactions, the second call runs right after it.  On code where
+// every call is one transaction this only ever yields "second call entirely
+// before" (k = 0) or "entirely after" (k >= 1) the first.
+
+type vfPairPlan struct {
+	k       int
+	started int // transactions the first call has begun
+	fired   bool
+	second  func()
+	done    chan struct{} // closed when the second call has returned
+}
+
+type vfGateDB struct {
+	walletdb.DB
+	mu   sync.Mutex
+	plan *vfPairPlan
+}
+
+func (d *vfGateDB) gate() {
+	d.mu.Lock()
+	p := d.plan
+	if p == nil || p.fired {
+		d.mu.Unlock()
+		return
+	}
+	if p.started < p.k {
+		p.started++
+		d.mu.Unlock()
+		return
+	}
+	p.fired = true
+	d.mu.Unlock()
+	done := vfRunSecond(p.second)
+	d.mu.Lock()
+	p.done = done
+	d.mu.Unlock()
+}
+
+// vfRunSecond runs the second caller's call in its own goroutine and waits for
+// it.  Should it not finish (it could be waiting for something the held first
+// call owns) the first call is let go after a bound and the second call simply
+// finishes later; the step is then still two overlapping calls.
+func vfRunSecond(f func()) (done chan struct{}) {
+	done = make(chan struct{})
+	go func() {
+		defer close(done)
+		f()
+	}()
+	select {
+	case <-done:
+	case <-time.After(2 * time.Second):
+	}
+	return done
+}
+
+func (d *vfGateDB) Update(f func(tx walletdb.ReadWriteTx) error, reset func()) error {
+	d.gate()
+	return d.DB.Update(f, reset)
+}
+
+func (d *vfGateDB) View(f func(tx walletdb.ReadTx) error, reset func()) error {
+	d.gate()
+	return d.DB.View(f, reset)
+}
+
+func (d *vfGateDB) BeginReadTx() (walletdb.ReadTx, error) {
+	d.gate()
+	return d.DB.BeginReadTx()
+}
+
+func (d *vfGateDB) BeginReadWriteTx() (walletdb.ReadWriteTx, error) {
+	d.gate()
+	return d.DB.BeginReadWriteTx()
+}
+
 type vfPending struct {
 	lexp int
 }
@@ -341,6 +466,7 @@ type vfEnv struct {
 	dir     string
 	dbPath  string
 	db      walletdb.DB
+	gate    *vfGateDB
 	store   Store
 	rng     *rand.Rand
 	classes []*vfClass
@@ -367,7 +493,8 @@ func (e *vfEnv) open(create bool) error {
 		e.db = nil
 		return err
 	}
-	e.store, err = NewStore(e.db)
+	e.gate = &vfGateDB{DB: e.db}
+	e.store, err = NewStore(e.gate)
 	if err != nil {
 		e.db.Close()
 		e.db, e.store = nil, nil
@@ -434,7 +561,110 @@ func vfSafely(fn func() error) (res string) {
 	return "ok"
 }
 
+// vfCall is one prepared store call of a two-caller step.
+type vfCall struct {
+	op     string
+	ipNet  *net.IPNet
+	reason Reason
+	dur    time.Duration
+	desc   string
+	perr   error
+}
+
+func (e *vfEnv) prepare(op string, c, g, d, r int) *vfCall {
+	k := &vfCall{op: op}
+	sp := e.classes[c-1].spelling(g, e.rng)
+	k.ipNet, k.perr = vfIPNetOf(sp)
+	k.desc = op + " " + sp
+	if op == "Ban" {
+		k.reason = e.reasons[r-1]
+		if d < 0 {
+			k.dur = []time.Duration{-2 * time.Second, -time.Minute, -time.Hour, -24 * time.Hour,
+				math.MinInt64}[e.rng.Intn(5)]
+		} else {
+			k.dur = []time.Duration{15 * time.Minute, time.Hour, 24 * time.Hour, 1000 * time.Hour}[e.rng.Intn(4)]
+		}
+		k.desc += fmt.Sprintf(" reason=%d duration=%v", k.reason, k.dur)
+	}
+	return k
+}
+
+func (e *vfEnv) perform(k *vfCall) (res string, b, rr int) {
+	b, rr = -1, -1
+	if k.perr != nil {
+		if k.op == "Status" {
+			return "err", vfERR, vfERR
+		}
+		return "err", b, rr
+	}
+	switch k.op {
+	case "Ban":
+		res = vfSafely(func() error { return e.store.BanIPNet(k.ipNet, k.reason, k.dur) })
+	case "Unban":
+		res = vfSafely(func() error { return e.store.UnbanIPNet(k.ipNet) })
+	case "Status":
+		var st Status
+		res = vfSafely(func() error {
+			var err error
+			st, err = e.store.Status(k.ipNet)
+			return err
+		})
+		switch {
+		case res != "ok":
+			b, rr = vfERR, vfERR
+		case st.Banned:
+			b, rr = 1, e.absReason(st.Reason)
+		default:
+			b, rr = 0, 0
+		}
+	default:
+		panic("unknown op " + k.op)
+	}
+	return
+}
+
+// execPair runs a two-caller step (only lapsed / long durations occur here).
+func (e *vfEnv) execPair(a vfAct) (vfAct, *vfConc) {
+	out := a
+	out.Now = e.clock
+	first := e.prepare(a.Op, a.C, a.G, a.D, a.R)
+	second := e.prepare(a.Op2, a.C2, a.G2, a.D2, a.R2)
+	var res2 string
+	var b2, rr2 int
+	runSecond := func() {
+		res2, b2, rr2 = e.perform(second)
+	}
+	plan := &vfPairPlan{k: a.K, second: runSecond}
+	e.gate.mu.Lock()
+	e.gate.plan = plan
+	e.gate.mu.Unlock()
+	out.Res, out.B, out.RR = e.perform(first)
+	e.gate.mu.Lock()
+	fired := plan.fired
+	plan.fired = true // nothing is gated any more
+	started := plan.started
+	done := plan.done
+	e.gate.plan = nil
+	e.gate.mu.Unlock()
+	if !fired {
+		done = vfRunSecond(runSecond)
+	}
+	// the second call must be over before anything is observed
+	select {
+	case <-done:
+	case <-time.After(30 * time.Second):
+		e.broken = "the second caller's call did not return"
+		out.Res2, out.B2, out.RR2 = "hang", vfERR, vfERR
+		return out, &vfConc{Spelling: first.desc, Second: second.desc, TxOfA: started}
+	}
+	out.Res2, out.B2, out.RR2 = res2, b2, rr2
+	return out, &vfConc{Spelling: first.desc, Second: second.desc, TxOfA: started}
+}
+
 func (e *vfEnv) exec(a vfAct) (vfAct, *vfConc) {
+	if a.K >= 0 {
+		return e.execPair(a)
+	}
 	out := a
 	out.Now = e.clock
 	conc := &vfConc{}
